@@ -15,6 +15,7 @@ optionally followed by <ne domain indices> and/or <3*nv rational coordinates, ve
   baryverts <nv> <ne> <elems> <verts>            new vertex coordinates of the barycentric refinement
   union <normalize 0|1> <given 0|1> <k> { <nv> <ne> <swap 0|1> <given domain index> <elems> <doms> }*k
   segments <nv> <ne> <elems> <doms> <nseg> <segs>
+  childdoms <doms>                               domain indices of refine | of the barycentric refinement
 Answers: `ok ...`, `err degenerate` (an element repeats a vertex index: Grid raises), `err index-error`,
 `err empty` (no element), `err bad-op`.  Lists of lists are printed as `len items...` per row.
 -/
@@ -159,6 +160,10 @@ def handle (toks : List String) : String :=
       match check g with
       | some e => e
       | none => withVerts g fun V => "ok " ++ showRats (flatV3 (baryVerts V g.els))
+    | none => "err bad-op"
+  | "childdoms" :: rest =>
+    match parseNats rest with
+    | some d => "ok " ++ showNats (refineDoms d) ++ " | " ++ showNats (baryDoms d)
     | none => "err bad-op"
   | "union" :: norm :: given :: k :: rest =>
     match norm.toNat?, given.toNat?, k.toNat? with
